@@ -8,6 +8,8 @@
 macro_rules! vx_is_some_and {
     ($o:expr, (|$t:ident| $b:expr)) => { match $o { Some($t) => $b, None => false } };
 }
+/// frc42_dispatch::method_hash!("InvokeEVM") = 3844450837 (FRC-42 hash; the documented InvokeEVM method number). Only this name is known.
+macro_rules! vx_method_hash { ("InvokeEVM") => { 3844450837 }; }
 verus! {
 pub const EMPTY_ARR_CID: Cid = Cid { h: 0 };
 
@@ -75,6 +77,33 @@ pub assume_specification<T: Clone>[<[T]>::to_vec](s: &[T]) -> (r: Vec<T>)
 impl<'a, const N: usize> CallerAddrs for [&'a Address; N] {
     #[verifier::prophetic]
     open spec fn addrs(self) -> vstd::set::Set<Address> { self@.map_values(|x: &Address| *x).to_set() }
+}
+/// fvm_shared SendFlags::default(): no flag set
+impl Default for SendFlags {
+    fn default() -> (r: SendFlags) ensures r.bits == 0 { SendFlags { bits: 0 } }
+}
+/// `TokenAmount::from(&U256)` (actors/evm/shared/src/uints.rs): the same number, in attoFIL
+impl<'a> vstd::std_specs::convert::FromSpecImpl<&'a U256> for TokenAmount {
+    open spec fn obeys_from_spec() -> bool { false }
+    uninterp spec fn from_spec(w: &'a U256) -> TokenAmount;
+}
+impl<'a> From<&'a U256> for TokenAmount {
+    #[verifier::external_body]
+    fn from(w: &'a U256) -> (r: TokenAmount) ensures r@ == w@ { unimplemented!() }
+}
+impl IpldBlock {
+    /// like serialize_cbor (prelude/rt.rs), DAG-CBOR codec: an opaque content-addressed token of the value
+    #[verifier::external_body]
+    pub fn serialize_dag_cbor<T>(v: &T) -> (r: Result<Option<IpldBlock>, ActorError>)
+        ensures r.is_ok() ==> r->Ok_0 == Some(IpldBlock { h: cbor_hash(*v) }), r.is_err() ==> r->Err_0.code == 21,
+    { unimplemented!() }
+}
+impl ActorError {
+    /// ActorError::checked(code, msg, data): message and data dropped (R4)
+    pub fn checked(code: ExitCode, msg: String, data: Option<IpldBlock>) -> (r: ActorError) ensures r.code == code.value { ActorError { code: code.value } }
+    /// take_data: removes the attached return data, keeps the exit code
+    #[verifier::external_body]
+    pub fn take_data(&mut self) -> (r: Option<IpldBlock>) ensures final(self).code == old(self).code { unimplemented!() }
 }
 /// actors/evm/src/state.rs BytecodeHash::EMPTY = keccak256(""): a fixed opaque value
 impl BytecodeHash {
